@@ -1,3 +1,31 @@
-From DSG Require Import Base Dsg Sel SelP Problem.
-Theorem C01_placeholder : True. Proof. exact I. Qed.
-Print Assumptions C01_placeholder.
+(* C01 — every design vector decodes to a valid architecture instance.
+   The correction search (which valid vector is picked) is abstracted: decode_witness decides, for what the implementation
+   returned, whether it is an architecture the graph semantics admit. These theorems say what a positive answer means. *)
+From DSG Require Import Base Dsg Sel SelP DesVar Problem ProblemP.
+From Coq Require Import QArith.
+
+Theorem C01_decode_valid : forall g E k x x' act inst dvv s,
+  decode_witness g E k x x' act inst dvv = Some (Some s) ->
+  Adm g s /\ (forall n, In n inst <-> (Reach g s n /\ is_choice g n = false)).
+Proof. exact decode_instance_is_closure. Qed.
+Print Assumptions C01_decode_valid.
+
+Theorem C01_witness_sound : forall g E k x x' act inst dvv s,
+  decode_witness g E k x x' act inst dvv = Some (Some s) ->
+  Adm g s /\ exists J, inst_nodes g s = Some J /\ (forall n, In n J <-> In n inst) /\
+                       vars_ok k s J dvv E x x' act = true.
+Proof. exact decode_witness_sound. Qed.
+Print Assumptions C01_witness_sound.
+
+(* decoding may only fail when nothing is admissible: the model's enumeration is empty iff no assignment is admissible *)
+Theorem C01_error_only_if_empty : forall g l, enum_adm g = Some l -> (l = [] <-> forall s, ~ Adm g s).
+Proof. exact infeasible_iff. Qed.
+Print Assumptions C01_error_only_if_empty.
+
+Definition ex_g : dsg := {|
+  nodes := [(0,Generic);(1,Generic);(2,Generic);(3,DesVarK);(10,SelChoice)]%N;
+  edges := [((0,10),Derives);((10,1),Derives);((10,2),Derives);((2,3),Derives)]%N;
+  start := [0%N]; cons := [] |}.
+Example C01_ex : decode_witness ex_g [VSel 10 [1;2]; VDv 3 (Disc 3)]%N Full [1; 5] [1; 2] [true; true] [0;2;3]%N [(3%N, 2)]
+  = Some (Some [(10,2)]%N).
+Proof. vm_compute. reflexivity. Qed.
